@@ -224,6 +224,10 @@ def run_shard(ctx):
     # strings every JSON encoder can write with \u escapes: lone surrogates (json.loads('"\\ud800"') yields one), astral and control characters
     # (a high surrogate directly followed by a low one is left out: it comes back as one astral character)
     special = ["\ud800", "\udfff", "x\udbff", "\udc00x", "\ud800 \udc00", "\U0001F600", "\x00", "\x7f", "\u2028\u2029", "\ufeff", "\uffff", "é", "\u00e9\u0301"]
+    # the integers of real JWKs: RSA keys one of whose private numbers is shorter than its nominal width (the stratum of C11, judged here for minimality)
+    if ctx.shard == 2:
+        from .c11 import rsa_short_private_members
+        rsa_short_private_members(ctx, rng)
     # very long inputs (an encoder working in pieces must join them on a 3-octet boundary)
     if ctx.shard == 1:
         for n in ([2 ** 16 + 1, 2 ** 20 + 1, 2 ** 24 + 2, 2 ** 25 + 1, 2 ** 25 + 2, 2 ** 26 + 1] if ctx.tier == "thorough" else [2 ** 16 + 1, 2 ** 20 + 1, 2 ** 24 + 2, 2 ** 25 + 1, 2 ** 26 + 1]):
